@@ -578,6 +578,9 @@ mod fp61bit {
             let val = (val & PRIME) + (val >> Self::BITS);
             // another round if val ended up being greater than PRIME
             let val = (val & PRIME) + (val >> Self::BITS);
+            // after two rounds `val <= PRIME + 2^(128 - 2 * BITS) + 1`; a third round brings
+            // it to at most PRIME for every `u128` input.
+            let val = (val & PRIME) + (val >> Self::BITS);
             if val == PRIME {
                 Self::ZERO
             } else {
